@@ -1,6 +1,9 @@
 package main
 
 import (
+	"strconv"
+	"errors"
+	"math"
 	"bytes"
 	"fmt"
 	"io"
@@ -26,10 +29,18 @@ func fioImplReadObj(data []byte, pos int, lens map[uint32]int64) string {
 			return x, nil
 		case pdf.Reference:
 			if v, ok := lens[x.Number()]; ok {
+				if v == fioLenReadError {
+					// a read error met while resolving the reference: not a malformed-file error
+					return 0, fmt.Errorf("resolving /Length: %w", errInjected)
+				}
+				if v == fioLenEOF {
+					return 0, io.EOF // the length object is cut off by the end of the data
+				}
 				return pdf.Integer(v), nil
 			}
 		}
-		return 0, fmt.Errorf("no integer")
+		// what the Reader's getInt reports for a missing or non-integer object
+		return 0, &pdf.MalformedFileError{Err: errors.New("not an integer")}
 	}
 	s := pdf.NewVerifScanner(bytes.NewReader(data), fioOffsetReaderAt{data, 0}, getInt)
 	obj, ref, err := s.ReadIndirectObject()
@@ -43,12 +54,27 @@ func fioImplReadObj(data []byte, pos int, lens map[uint32]int64) string {
 	return fmt.Sprintf("ok P %s %d %d %d", wireNorm(obj), ref.Number(), ref.Generation(), s.Pos())
 }
 
+// fioLenReadError as a value of the lens table: resolving this reference meets a
+// read error ("num:!" on the wire).
+const fioLenReadError = math.MinInt64
+
+// fioLenEOF: resolving this reference runs into the end of the data ("num:e").
+const fioLenEOF = math.MinInt64 + 1
+
 func fioLensArg(lens map[uint32]int64) string {
 	if len(lens) == 0 {
 		return "-"
 	}
 	var parts []string
 	for k, v := range lens {
+		if v == fioLenReadError {
+			parts = append(parts, fmt.Sprintf("%d:!", k))
+			continue
+		}
+		if v == fioLenEOF {
+			parts = append(parts, fmt.Sprintf("%d:e", k))
+			continue
+		}
 		parts = append(parts, fmt.Sprintf("%d:%d", k, v))
 	}
 	// order is irrelevant to the model (lookup), but keep lines reproducible
@@ -174,7 +200,102 @@ func fioEmitGets(c *Ctx, r *Rand, res *fioResult, file []byte, lensArg string, d
 	}
 }
 
+// fioObjStmMemberTexts: members of hand-made object streams around the
+// completion of "n g R" (getFromObjStm/referenceTail): the Writer never puts a
+// reference into an object stream, other producers do.
+var fioObjStmMemberTexts = []string{
+	"5 %c\n0 R", "5 0 %c\rR", "5 +0 R", "5 -0 R", "5 00 R", "5 0000065535 R", "5 0 R%x", "5 0 R(", "+5 0 R", "05 0 R",
+	"5 9223372036854775808 R", "5 0.0 R", "5 0 R R", "5 -1 R", "5 -65536 R",
+	"5 0 R", "5  0\n R", "5\t12\rR", "5 0 R ", "5 0 R/N", "5 0 R]", "5 0 Rx", "5 0 R0", "5 0R", "5 0", "5",
+	"5 6 7", "5 123456 R", "5 1234567 R", "5 65535 R", "5 65536 R", "16777215 0 R", "16777216 0 R", "-1 0 R",
+	"0 0 R", "5 -0 R", "5 +1 R", "5 0 r", "5 0 R%c", "5 0 obj", "5.0 0 R", "/Name", "[5 0 R]", "<</K 5 0 R>>",
+	"5" + "                                                                  " + "0 R", // 66 blanks: outside the 64-byte window
+	"5" + "                                                            " + "0 R",       // 60 blanks: R is the 64th byte
+	"5 0                                                             R",
+}
+
+// fioObjStmHandmade builds object streams from the member texts (one to three
+// members, separated by a space, a newline or nothing) and looks every member up.
+func fioObjStmHandmade(c *Ctx, r *Rand, n int) {
+	for i := 0; i < n; i++ {
+		k := 1 + r.Intn(3)
+		var texts []string
+		for j := 0; j < k; j++ {
+			if i < len(fioObjStmMemberTexts) && j == 0 {
+				texts = append(texts, fioObjStmMemberTexts[i]) // every text at least once, alone or first
+			} else {
+				texts = append(texts, Pick(r, fioObjStmMemberTexts))
+			}
+		}
+		if i < len(fioObjStmMemberTexts) && i%2 == 0 {
+			texts = texts[:1]
+		}
+		var body []byte
+		var offs []int
+		for j, t := range texts {
+			offs = append(offs, len(body))
+			body = append(body, t...)
+			if j+1 < len(texts) {
+				body = append(body, Pick(r, []string{" ", "\n", "", "  "})...)
+			}
+		}
+		var head []byte
+		for j := range texts {
+			head = append(head, fmt.Sprintf("%d %d ", 10+j, offs[j])...)
+		}
+		content := append(append([]byte(nil), head...), body...)
+		dict := pdf.Dict{"N": pdf.Integer(len(texts)), "First": pdf.Integer(len(head))}
+		for j := range texts {
+			num := uint32(10 + j)
+			c.Stat("objstm_handmade_lookups")
+			c.Case(fmt.Sprintf("osget %x %d", content, num), true)
+			c.Emit(fmt.Sprintf("FIO osget %s %s %d", wire(dict), hexWire(content), num), fioImplObjStm(dict, content, num))
+		}
+	}
+}
+
+// fioLengthExtremes: declared lengths up to MaxInt64.  start+declared wraps
+// around for the largest ones, the ReadAt at a negative offset fails and (since
+// library commit a2d2dfe) that error is returned instead of the extent being
+// recovered; slightly smaller values read past the end (io.EOF) and recover.
+func fioLengthExtremes(c *Ctx) {
+	for _, n := range []string{"3", "4", "99", "2147483648", "9223372036854775000", "9223372036854775700",
+		"9223372036854775806", "9223372036854775807", "9223372036854775808", "-1"} {
+		for _, indirect := range []bool{false, true} {
+			lens := map[uint32]int64{}
+			val := n
+			if indirect {
+				v, err := strconv.ParseInt(n, 10, 64)
+				if err != nil {
+					continue
+				}
+				lens[7] = v
+				val = "7 0 R"
+			}
+			data := []byte("5 0 obj\n<</Length " + val + ">>\nstream\nabc\nendstream\nendobj\n")
+			c.Stat("rdobj_length_extremes")
+			c.Case(fmt.Sprintf("rdobj-extreme %s %v", n, indirect), true)
+			c.Emit(fmt.Sprintf("FIO rdobj %s %d %s", hexWire(data), 0, fioLensArg(lens)), fioImplReadObj(data, 0, lens))
+		}
+	}
+}
+
+// fioTopLevelRefs: indirect objects whose value is a reference ("a b R" behind
+// an integer is completed by ReadIndirectObject itself), around its limits.
+func fioTopLevelRefs(c *Ctx) {
+	for _, t := range []string{"7 0 R", "7 65535 R", "7 65536 R", "7 -1 R", "7 -0 R", "7 +0 R", "-7 0 R", "16777215 0 R",
+		"16777216 0 R", "7 0 Rx", "7 0 R%c\n", "7  0\nR", "7 %c\n0 R", "7 0", "7 0 obj", "7 9223372036854775808 R", "7.0 0 R"} {
+		data := []byte("5 0 obj\n" + t + "\nendobj\n")
+		c.Stat("rdobj_toplevel_refs")
+		c.Case("rdobj-ref "+t, true)
+		c.Emit(fmt.Sprintf("FIO rdobj %s %d -", hexWire(data), 0), fioImplReadObj(data, 0, nil))
+	}
+}
+
 func runFIORead(c *Ctx) {
+	fioObjStmHandmade(c, c.R.Fork(), map[bool]int{false: 120, true: 3000}[c.Thorough])
+	fioLengthExtremes(c)
+	fioTopLevelRefs(c)
 	r := c.R.Fork()
 	n := 150
 	if c.Thorough {
@@ -225,6 +346,24 @@ func runFIORead(c *Ctx) {
 			c.Stat("rdobj_cases")
 			emit(data, int(e.Pos))
 			picked++
+			if len(lens) > 0 && bytes.Contains(data[:min(len(data), 400)], []byte(" 0 R")) {
+				// the /Length resolver fails: with a read error (must be reported), and with a
+				// malformed-file error (length unknown: the extent is recovered)
+				failing := map[uint32]int64{}
+				for k := range lens {
+					failing[k] = fioLenReadError
+				}
+				c.Stat("rdobj_length_read_error")
+				c.Emit(fmt.Sprintf("FIO rdobj %s %d %s", hexWire(data), int(e.Pos), fioLensArg(failing)), fioImplReadObj(data, int(e.Pos), failing))
+				cut := map[uint32]int64{}
+				for k := range lens {
+					cut[k] = fioLenEOF
+				}
+				c.Stat("rdobj_length_eof")
+				c.Emit(fmt.Sprintf("FIO rdobj %s %d %s", hexWire(data), int(e.Pos), fioLensArg(cut)), fioImplReadObj(data, int(e.Pos), cut))
+				c.Stat("rdobj_length_malformed")
+				c.Emit(fmt.Sprintf("FIO rdobj %s %d -", hexWire(data), int(e.Pos)), fioImplReadObj(data, int(e.Pos), nil))
+			}
 			// damaged variants
 			for m := 0; m < 3; m++ {
 				bad := append([]byte(nil), data...)
